@@ -901,6 +901,12 @@ func (ch c16) Run(c *core.Ctx) {
 		}
 		ch.sessionContextEnds(c, v)
 	}
+	for v := 0; v < 4; v++ {
+		if !c.Begin(70050+v) || c.NViol() >= 10 {
+			continue
+		}
+		ch.lateStartup(c, v)
+	}
 	// a statement function that panics when executed through the extended protocol (the pinned tree turns
 	// that into an ErrorResponse): the command is over all the same, a Close afterwards returns
 	for v := 0; v < 2; v++ {
@@ -1112,4 +1118,50 @@ func (ch c16) panicThenClose(c *core.Ctx, variant int) {
 		c.Violate("serve-hang", "Serve did not return after Close", "", cs)
 	}
 	c.Eval(fmt.Sprintf("panic then close %d", variant), true)
+}
+
+// lateStartup: a connection is accepted and has sent half of its start-up packet when Close is called and
+// returns; the rest of the packet (with run-time settings in its options parameter, as libpq's PGOPTIONS
+// sends them) and a query arrive afterwards. Whatever the server does with that connection, no parser or
+// statement function begins.
+func (ch c16) lateStartup(c *core.Ctx, variant int) {
+	cs := map[string]any{"late_startup_variant": variant}
+	e := &c16env{entered: make(chan string, 8)}
+	env := hs.Start(ch.parseFn(e))
+	cl := hs.NewClient(env.Dial(nil))
+	params := [][2]string{{"user", "late"}, {"options", []string{"-c search_path=public -c geqo=off", "--application_name=late --statement_timeout=5", "-c DateStyle=ISO"}[variant%3]}}
+	if variant == 3 {
+		params = params[:1]
+	}
+	pkt := pg.Startup(params)
+	cl.C.Send(pkt[:len(pkt)/2])
+	cl.C.Quiesce()
+	done := make(chan struct{})
+	go func() { env.Srv.Close(); e.closeReturned.Store(true); close(done) }()
+	select {
+	case <-done:
+	case <-time.After(40 * time.Second):
+		dump, lib := core.ClassifyHang()
+		if len(lib) > 0 {
+			c.Violate("deadlock", "Close blocks on a connection that is half-way through its start-up packet: "+strings.Join(lib, "; "), trim(dump, 3000), cs)
+		} else {
+			c.Inconclusive("Close watchdog fired (half a start-up packet) without a library-blocked goroutine")
+		}
+		c.Finish()
+		return
+	}
+	cl.C.Send(append(pkt[len(pkt)/2:], pg.Query("plain after close")...))
+	cl.C.Quiesce()
+	cl.C.CloseWrite()
+	cl.C.WaitClosed()
+	c.Count("startups_completed_after_close_returned", 1)
+	if v := e.viol.Load(); v != nil {
+		c.Violate("late-start", "a callback began on a connection that completed its start-up after Close had returned", *v, cs)
+	}
+	select {
+	case <-env.ServeErr:
+	case <-time.After(40 * time.Second):
+		c.Violate("serve-hang", "Serve did not return after Close", "", cs)
+	}
+	c.Eval(fmt.Sprintf("late startup %d", variant), true)
 }
